@@ -5,8 +5,8 @@ from props import hc_common as H
 from gen_hc import Sim, Net, pick_cfg, random_traffic, pick_len, F
 
 PROP = "C01"
-LAKE_TARGETS = ["Uflow.Props.C01", "Uflow.Props.C01Sys", "Uflow.Props.C01Hc", "Uflow.Props.C01Init", "Uflow.Props.C01Age", "Uflow.Props.C01AgeFrames", "uflow_driver"]
-PROPS_FILES = ["C01", "C01Sys", "C01Hc", "C01Init", "C01Age", "C01AgeFrames"]
+LAKE_TARGETS = ["Uflow.Props.C01", "Uflow.Props.C01Sys", "Uflow.Props.C01Hc", "Uflow.Props.C01Init", "Uflow.Props.C01Age", "Uflow.Props.C01AgeFrames", "Uflow.Props.C01AgeSync", "uflow_driver"]
+PROPS_FILES = ["C01", "C01Sys", "C01Hc", "C01Init", "C01Age", "C01AgeFrames", "C01AgeSync"]
 TRUSTED_BASE = [
     "Lean 4.33 kernel; axioms per theorem under coverage.axioms",
     "tools/extract_consts.py",
